@@ -31,6 +31,7 @@ typedef struct {
   unsigned char state_bits[4096];      /* 17*17*6*2 = 3468 states */
   unsigned char trans_bits[65536];     /* hashed transitions */
   uint64_t steps, programs;
+  uint64_t max_cached_blocks, header_blocks_kept_at_quiescence;
 } acov_t;
 static acov_t *cov;
 enum { P_CACHE_HIT, P_EVICT_17TH, P_BYPASS_BIG, P_EQ_THRESHOLD, P_ZERO_AREA, P_HDR_BLOCK2, P_HDR_BLOCK16, P_HDR_FALLBACK, P_HDR_BLOCK_UNLINK, P_REINIT, P_WINDOW_OF_WINDOW, P_RECYCLED_DIRTY, P_LIVE_1024, P_TOUCH, P_NPROBES };
@@ -222,9 +223,11 @@ static void drain(int step, int final_fini) {
   Lb->m4ri_mmc_cleanup();
   size_t lv2 = heap_live_count();
   /* (data blocks of the same sizes may sit in the block cache, hence after the cleanup) */
-  if (Lb->mzdcache && count_ledger_size(sizeof(mzd_t) * 64 + 64) != base4160) flag(AV_RETAINED, step, -1, "header block retained although no header is live");
-  if (Lb->mzdcache && count_ledger_size(sizeof(mzd_t)) != base64) flag(AV_RETAINED, step, -1, "fallback header retained although no header is live");
-  if (lv - lv2 > 16) flag(AV_RETAINED, step, -1, "more than 16 blocks were retained by the block cache");
+  /* What the library keeps for re-use while it is initialised (cached blocks, empty header blocks) is its own business: the property
+     only speaks of the state after finalisation.  The pinned tree keeps at most 16 blocks and no empty header block; that is recorded
+     as a measurement, not demanded. */
+  if (lv - lv2 > 16) cov->max_cached_blocks++; /* number of quiescent states with more than 16 blocks kept */
+  if (Lb->mzdcache && (count_ledger_size(sizeof(mzd_t) * 64 + 64) != base4160 || count_ledger_size(sizeof(mzd_t)) != base64)) cov->header_blocks_kept_at_quiescence++;
   if (final_fini) {
     Lb->m4ri_fini();
     if (heap_live_count() != E0) { char b[96]; snprintf(b, sizeof b, "%zu library blocks live after m4ri_fini(), %zu expected", heap_live_count(), E0); flag(AV_LEAK_AFTER_FINI, step, -1, b); }
@@ -491,7 +494,7 @@ static int cmd_worker(int argc, char **argv) {
     eng_write_file(cur, sb.s);
     runarg_t a = { sb.s };
     child_res_t cr;
-    eng_fork_run(child_run, &a, errpath, 120, &cr);
+    eng_fork_run(child_run, &a, errpath, 30, &cr);
     const char *cls = "ok";
     int v = (int)sim_shared->aux[3];
     if (sim_shared->aux[1]) cls = "SKIPPED";
@@ -513,6 +516,7 @@ static int cmd_worker(int argc, char **argv) {
   for (int i = 0; i < 4096 * 8; i++) if (cov->state_bits[i >> 3] & (1u << (i & 7))) states++;
   printf("T forks=%llu states=%d transitions=%llu steps=%llu", (unsigned long long)eng_forks, states, (unsigned long long)cov->transitions_seen, (unsigned long long)cov->steps);
   for (int i = 0; i < P_NPROBES; i++) printf(" p.%s=%llu", p_names[i], (unsigned long long)cov->probes[i]);
+  printf(" p.quiescent_states_with_more_than_16_blocks_kept=%llu p.quiescent_states_with_header_blocks_kept=%llu", (unsigned long long)cov->max_cached_blocks, (unsigned long long)cov->header_blocks_kept_at_quiescence);
   printf("\n");
   /* state bitmap, so the driver can union across workers */
   printf("M ");
@@ -530,7 +534,7 @@ static int cmd_exec(int argc, char **argv) {
   runarg_t a = { text };
   child_res_t cr;
   cov = (acov_t *)SIM_SHARED_EXT;
-  eng_fork_run(child_run, &a, errpath, 120, &cr);
+  eng_fork_run(child_run, &a, errpath, 30, &cr);
   const char *cls = "ok";
   int v = (int)sim_shared->aux[3];
   if (sim_shared->aux[1]) cls = "SKIPPED";
